@@ -90,7 +90,8 @@ Definition geo_ok (g : fgeo) (t : Format.fat_type) : Prop :=
   In (q_bps g) [512; 1024; 2048; 4096] /\ 1 <= q_spc g <= 128 /\ q_r g = reserved_of t /\ 1 <= q_f g <= 2 /\
   1 <= q_spf g /\ q_rds g <= 4096 /\ (t = Format.Fat32 -> q_rds g = 0) /\
   q_r g + q_f g * q_spf g + q_rds g + q_total g * q_spc g <= 4294967295 /\
-  q_total g + 2 <= entries_of g t /\ from_clusters (q_total g) = t /\ q_total g <= max_clusters t /\ q_media g <= 255.
+  q_total g + 2 <= entries_of g t /\ from_clusters (q_total g) = t /\ q_total g <= max_clusters t /\ q_media g <= 255 /\
+  q_spf g * q_bps g <= 4294967295.
 
 Definition if32 (t : Format.fat_type) (a b : N) : N := if fat_type_eqb t Format.Fat32 then a else b.
 
@@ -233,7 +234,29 @@ Proof.
       - generalize (spc * (o_bytes_per_sector o * 8) / bits_per_fat_entry t). intros x. lia.
       - lia.
       - unfold c, clusters_of. fold rds. rewrite Hspf. reflexivity. }
-    split; [symmetry; exact F5|]. split; [exact F6|lia].
+    split; [symmetry; exact F5|]. split; [exact F6|]. split; [lia|].
+    (* one copy of the table is smaller than 4 GiB *)
+    destruct (fat_type_eqb t Format.Fat32) eqn:E32.
+    + apply fat_type_eqb_eq in E32. subst t. cbn [reserved_of fat_type_eqb max_clusters] in *.
+      assert (rds = 0) as Hrds0 by reflexivity. rewrite Hrds0 in *.
+      assert (exists K, o_bytes_per_sector o = 4 * K /\ 128 <= K <= 1024) as (K & HK & HKr).
+      { exists (o_bytes_per_sector o / 4). cbn [In pow2_512_32768] in Hbin. lia. }
+      set (D := ts - 8 - 0) in *.
+      assert (spf = (D + 2 * spc + (spc * K + o_fats o) - 1) / (spc * K + o_fats o)) as Hspf'.
+      { rewrite Hspf. unfold mk_layout, l_sectors_per_fat, spf_of, t2_of. cbn [reserved_of fat_type_eqb bits_per_fat_entry].
+        fold rds. rewrite Hrds0. fold D. rewrite HK.
+        replace (spc * (4 * K) * 8) with (spc * K * 32) by lia. rewrite N.div_mul by discriminate. reflexivity. }
+      assert ((spc * K + o_fats o) * spf <= D + 2 * spc + (spc * K + o_fats o) - 1) as A.
+      { rewrite Hspf' at 1. apply N.mul_div_le. lia. }
+      assert (D - spf * o_fats o < spc * c + spc) as Bq.
+      { unfold c, clusters_of. cbn [reserved_of fat_type_eqb]. fold rds. rewrite Hrds0. fold D.
+        replace (spf_of ts (o_bytes_per_sector o) spc Format.Fat32 0 (o_fats o)) with spf by (rewrite Hspf; reflexivity).
+        pose proof (N.div_mod (D - spf * o_fats o) spc ltac:(lia)) as Hdm.
+        pose proof (N.mod_lt (D - spf * o_fats o) spc ltac:(lia)) as Hml. lia. }
+      assert (spc * (K * spf) <= spc * (c + 3 + K)) as Cq by nia.
+      assert (K * spf <= c + 3 + K) as Dq by (apply (N.mul_le_mono_pos_l _ _ spc); [lia|exact Cq]).
+      rewrite HK. nia.
+    + cbn [negb andb] in L1. apply N.ltb_ge in L1. nia.
   - constructor; cbn [q_bps q_spc q_r q_f q_spf q_rds q_total q_media].
     + reflexivity.
     + reflexivity.
@@ -281,18 +304,91 @@ Qed.
 (* ================================================================== FAT stores, uniformly in the width *)
 Definition val_ft (ft : Fat.fat_type) (s : fstore) (c : N) : fatv :=
   match ft with Fat.Fat12 => val12 s c | Fat.Fat16 => val16 s c | Fat.Fat32 => val32 s c end.
-Definition okv_ft (ft : Fat.fat_type) (v : fatv) : Prop :=
-  match ft with Fat.Fat12 => okv12 v | Fat.Fat16 => okv16 v | Fat.Fat32 => okv32 v end.
 
-Lemma fat_set_ok ft s c v : (1 <= fs_mirrors s)%nat -> bytes_ok (fs_img s) -> okc_ft ft s c -> okv_ft ft v ->
-  exists s', fat_set ft s c v = Ok s' /\ geom_eq s s' /\ bytes_ok (fs_img s') /\
-             val_ft ft s' c = v /\ forall c', c' <> c -> okc_ft ft s c' -> val_ft ft s' c' = val_ft ft s c'.
+(* entries format_volume may address: inside one copy and without u32 overflow of the offset arithmetic; unlike
+   okc32 of FatProofs this includes the FAT32 cluster numbers 0x0FFFFFF7.. (which only accept EndOfChain / Bad) *)
+Definition okc_w (ft : Fat.fat_type) (s : fstore) (c : N) : Prop :=
+  match ft with
+  | Fat.Fat12 => okc12 s c
+  | Fat.Fat16 => okc16 s c
+  | Fat.Fat32 => 4 * c + 4 <= fs_size s /\ c < 1073741824
+  end.
+
+Lemma okc_ft_w ft s c : okc_ft ft s c -> okc_w ft s c.
+Proof. destruct ft; cbn [okc_ft okc_w]; unfold okc32; intros H; try exact H. lia. Qed.
+
+Lemma okc_w_geom ft s s' c : geom_eq s s' -> okc_w ft s c -> okc_w ft s' c.
 Proof.
-  intros Hm Hb Hc Hv. destruct ft; cbn [fat_set okc_ft okv_ft val_ft] in *.
-  - exact (set12_ok s c v Hm Hb Hc Hv).
-  - destruct (set16_ok s c v Hm Hc Hv) as (s' & E & G & Hb' & R). exists s'. repeat split; try assumption; try apply G.
-    + exact (Hb' Hb). + apply R. + apply R.
-  - exact (set32_ok s c v Hm Hb Hc Hv).
+  intros (_ & G & _). destruct ft; cbn [okc_w]; unfold okc12, okc16; rewrite G; exact (fun H => H).
+Qed.
+
+(* set32 of a value other than Free, for any cluster number whose offset fits *)
+Lemma set32_eq_nf s c v : 4 * c + 4 <= fs_size s -> c < 1073741824 -> v <> Free ->
+  set32 s c v = Ok (sw_store s (4 * c) (new32 s c v)).
+Proof.
+  intros H1 H2 Hv. unfold set32, u32_mul, u32_max.
+  destruct (c * 4 <=? 4294967295) eqn:E; [|apply N.leb_gt in E; lia]. cbn [bind].
+  replace (c * 4) with (4 * c) by lia.
+  destruct (read32_word s c H1) as [-> Hw]. cbn [bind]. rewrite Hw.
+  assert ((match v with Free => true | _ => false end) = false) as -> by (destruct v; try reflexivity; contradiction).
+  cbn [andb]. apply slice_write_ok. change (len_N _) with 4. lia.
+Qed.
+
+Lemma low28_after s c v : (1 <= fs_mirrors s)%nat -> bytes_ok (fs_img s) -> 4 * c + 4 <= fs_size s ->
+  Fat.raw32 v < 268435456 -> word32 (sw_store s (4 * c) (new32 s c v)) c mod 268435456 = Fat.raw32 v.
+Proof.
+  intros Hm Hb H1 Hr. rewrite (word32_after s c v Hm H1). cbv zeta.
+  rewrite (merge32 (word32 s c) (Fat.raw32 v) Hr).
+  pose proof (word32_lt s c Hb) as Hw.
+  set (w := word32 s c) in *. set (r := Fat.raw32 v) in *.
+  assert (w / 268435456 * 268435456 + r < 4294967296) as Hx by lia.
+  rewrite (u32_word _ Hx). lia.
+Qed.
+
+Lemma set32_ok_w s c v : (1 <= fs_mirrors s)%nat -> bytes_ok (fs_img s) -> 4 * c + 4 <= fs_size s -> c < 1073741824 ->
+  v = Eoc \/ v = Bad ->
+  exists s', set32 s c v = Ok s' /\ geom_eq s s' /\ bytes_ok (fs_img s') /\ val32 s' c = v /\
+             (forall c', c' <> c -> 4 * c' + 4 <= fs_size s -> val32 s' c' = val32 s c') /\
+             mirrored_write s s' (4 * c) 4.
+Proof.
+  intros Hm Hb H1 H2 Hv. exists (sw_store s (4 * c) (new32 s c v)).
+  assert (v <> Free) as Hnf by (destruct Hv as [-> | ->]; discriminate).
+  split; [apply set32_eq_nf; assumption|]. split; [repeat split|].
+  split; [apply sw_bytes_ok; [exact Hb|apply u32_bytes_ok]|]. split; [|split].
+  - unfold val32. rewrite low28_after; try assumption.
+    + destruct Hv as [-> | ->]; cbn [Fat.raw32]; unfold classify32; cbn [N.eqb Pos.eqb N.leb N.compare Pos.compare Pos.compare_cont];
+        reflexivity.
+    + destruct Hv as [-> | ->]; cbn [Fat.raw32]; lia.
+  - intros c' Hne Hc1'. unfold val32, word32.
+    assert (4 * c + len_N (new32 s c v) <= fs_size s) as Hlen by (change (len_N _) with 4; lia).
+    assert (forall o, o < 4 * c \/ 4 * c + len_N (new32 s c v) <= o <-> o < 4 * c \/ 4 * c + 4 <= o) as Hl
+      by (intros o; change (len_N _) with 4; tauto).
+    rewrite (sw_ebyte_other s (4 * c) (new32 s c v) (4 * c')) by (try assumption; try apply Hl; lia).
+    rewrite (sw_ebyte_other s (4 * c) (new32 s c v) (4 * c' + 1)) by (try assumption; try apply Hl; lia).
+    rewrite (sw_ebyte_other s (4 * c) (new32 s c v) (4 * c' + 2)) by (try assumption; try apply Hl; lia).
+    rewrite (sw_ebyte_other s (4 * c) (new32 s c v) (4 * c' + 3)) by (try assumption; try apply Hl; lia).
+    reflexivity.
+  - apply (sw_mirrored s (4 * c) (new32 s c v)); [change (len_N _) with 4; lia|apply u32_bytes_ok].
+Qed.
+
+(* writing EndOfChain / Bad into an addressable entry, any width *)
+Lemma fat_set_ok_w ft s c v : (1 <= fs_mirrors s)%nat -> bytes_ok (fs_img s) -> okc_w ft s c -> v = Eoc \/ v = Bad ->
+  exists s', fat_set ft s c v = Ok s' /\ geom_eq s s' /\ bytes_ok (fs_img s') /\
+             val_ft ft s' c = v /\ (forall c', c' <> c -> okc_w ft s c' -> val_ft ft s' c' = val_ft ft s c') /\
+             mirrored_write s s' (entry_off ft c) (entry_len ft).
+Proof.
+  intros Hm Hb Hc Hv. destruct ft; cbn [fat_set okc_w val_ft entry_off entry_len] in *.
+  - assert (okv12 v) as Hv' by (destruct Hv as [-> | ->]; exact I).
+    destruct (set12_ok s c v Hm Hb Hc Hv') as (s' & E & G & B' & V & F). exists s'.
+    split; [exact E|]. split; [exact G|]. split; [exact B'|]. split; [exact V|]. split; [exact F|].
+    exact (set12_mirrored s c v s' Hc E).
+  - assert (okv16 v) as Hv' by (destruct Hv as [-> | ->]; exact I).
+    destruct (set16_ok s c v Hm Hc Hv') as (s' & E & G & Hb' & V & F). exists s'.
+    split; [exact E|]. split; [exact G|]. split; [exact (Hb' Hb)|]. split; [exact V|]. split; [exact F|].
+    exact (set16_mirrored s c v s' Hc E).
+  - destruct Hc as [H1 H2]. destruct (set32_ok_w s c v Hm Hb H1 H2 Hv) as (s' & E & G & B' & V & F & M).
+    exists s'. split; [exact E|]. split; [exact G|]. split; [exact B'|]. split; [exact V|]. split; [|exact M].
+    intros c' Hne [Hc' _]. apply F; assumption.
 Qed.
 
 Lemma val_ft_ext ft s s' c :
@@ -316,9 +412,9 @@ Proof.
     unfold classify32. rewrite (special32_small c Hc). reflexivity.
 Qed.
 
-(* an in-table entry lies inside one copy *)
-Lemma okc_ft_inside ft s c : okc_ft ft s c -> entry_off ft c + entry_len ft <= fs_size s.
-Proof. destruct ft; cbn [okc_ft entry_off entry_len]; unfold okc12, okc16, okc32; lia. Qed.
+(* an addressable entry lies inside one copy *)
+Lemma okc_w_inside ft s c : okc_w ft s c -> entry_off ft c + entry_len ft <= fs_size s.
+Proof. destruct ft; cbn [okc_w entry_off entry_len]; unfold okc12, okc16; lia. Qed.
 
 Lemma entry_off_reserved ft c : 2 <= c -> reserved_len ft <= entry_off ft c.
 Proof. destruct ft; cbn [reserved_len entry_off]; unfold off12; lia. Qed.
@@ -332,6 +428,17 @@ Proof.
   pose proof (mul_lt_step i (N.of_nat (fs_mirrors s)) (fs_size s) Hi) as Hm. lia.
 Qed.
 
+(* ... and nothing in the reserved leading bytes of any copy when the entry lies behind them *)
+Lemma mw_reserved_kept s s' off len k i o : mirrored_write s s' off len -> off + len <= fs_size s -> k <= off ->
+  i < N.of_nat (fs_mirrors s) -> o < k -> copy_byte s' i o = copy_byte s i o.
+Proof.
+  intros ((G1 & G2 & G3) & _ & Hfr & _) Hl Hk Hi Ho. unfold copy_byte. rewrite G1, G2. apply Hfr. intros j Hj.
+  destruct (N.lt_trichotomy j i) as [Hlt|[->|Hgt]].
+  - right. pose proof (mul_lt_step j i (fs_size s) Hlt). lia.
+  - left. lia.
+  - left. pose proof (mul_lt_step i j (fs_size s) Hgt). lia.
+Qed.
+
 Definition outside_fat (s : fstore) (a : N) : Prop :=
   a < fs_base s \/ fs_base s + N.of_nat (fs_mirrors s) * fs_size s <= a.
 
@@ -343,43 +450,44 @@ Proof. intros (A1 & A2 & A3) (B1 & B2 & B3). unfold geom_eq. rewrite B1, B2, B3.
 Lemma outside_fat_geom s s' a : geom_eq s s' -> outside_fat s a -> outside_fat s' a.
 Proof. intros (G1 & G2 & G3). unfold outside_fat. rewrite G1, G2, G3. exact (fun H => H). Qed.
 
-(* the loop of format_fat: entries c .. c+n-1 become v, every other entry keeps its value, the reserved bytes of
-   every copy, the equality of the copies and everything outside the copies are kept *)
-Lemma fill_entries_spec ft v : okv_ft ft v -> forall n s c,
+(* the loops of format_fat (v = EndOfChain / Bad): entries c .. c+n-1 become v, every other entry keeps its value, the
+   reserved bytes of every copy, the equality of the copies and everything outside the copies are kept *)
+Lemma fill_entries_spec ft v : v = Eoc \/ v = Bad -> forall n s c,
   (1 <= fs_mirrors s)%nat -> bytes_ok (fs_img s) -> 2 <= c ->
-  (forall x, c <= x < c + N.of_nat n -> okc_ft ft s x) ->
+  (forall x, c <= x < c + N.of_nat n -> okc_w ft s x) ->
   exists s', fill_entries ft s c n v = Ok s' /\ geom_eq s s' /\ bytes_ok (fs_img s') /\
     (copies_equal s -> copies_equal s') /\
     (forall x, c <= x < c + N.of_nat n -> val_ft ft s' x = v) /\
-    (forall x, okc_ft ft s x -> ~ (c <= x < c + N.of_nat n) -> val_ft ft s' x = val_ft ft s x) /\
+    (forall x, okc_w ft s x -> ~ (c <= x < c + N.of_nat n) -> val_ft ft s' x = val_ft ft s x) /\
     (forall i o, i < N.of_nat (fs_mirrors s) -> o < reserved_len ft -> copy_byte s' i o = copy_byte s i o) /\
     (forall a, outside_fat s a -> img_get (fs_img s') a = img_get (fs_img s) a).
 Proof.
   intros Hv. induction n as [|n IH]; intros s c Hm Hb Hc Hok; cbn [fill_entries].
   - exists s. split; [reflexivity|]. split; [apply geom_eq_refl|]. split; [exact Hb|]. split; [exact (fun H => H)|].
     split; [intros x Hx; lia|]. repeat split; reflexivity.
-  - assert (okc_ft ft s c) as Hcc by (apply Hok; lia).
-    destruct (fat_set_ok ft s c v Hm Hb Hcc Hv) as (s1 & E1 & G1 & Hb1 & Hv1 & Hfr1).
+  - assert (okc_w ft s c) as Hcc by (apply Hok; lia).
+    destruct (fat_set_ok_w ft s c v Hm Hb Hcc Hv) as (s1 & E1 & G1 & Hb1 & Hv1 & Hfr1 & Hmw).
     rewrite E1. cbn [bind].
-    pose proof (fat_set_mirrored ft s c v s1 Hcc E1) as Hmw.
     pose proof G1 as (Ga & Gb & Gc).
     destruct (IH s1 (c + 1)) as (s' & E' & G' & Hb' & Hce' & Hin' & Hout' & Hres' & Hfr').
     { rewrite Gc. exact Hm. } { exact Hb1. } { lia. }
-    { intros x Hx. apply (okc_ft_geom ft s s1 x G1). apply Hok. lia. }
+    { intros x Hx. apply (okc_w_geom ft s s1 x G1). apply Hok. lia. }
     exists s'. split; [exact E'|]. split; [exact (geom_eq_trans _ _ _ G1 G')|]. split; [exact Hb'|].
     split. { intros H. apply Hce'. destruct Hmw as (_ & _ & _ & Hce & _). apply Hce. exact H. }
     split.
     { intros x Hx. destruct (N.eq_dec x c) as [->|Hne].
-      - rewrite Hout'; [exact Hv1|apply (okc_ft_geom ft s s1 c G1); exact Hcc|lia].
+      - rewrite Hout'; [exact Hv1|apply (okc_w_geom ft s s1 c G1); exact Hcc|lia].
       - apply Hin'. lia. }
     split.
-    { intros x Hxo Hx. rewrite Hout'; [|apply (okc_ft_geom ft s s1 x G1); exact Hxo|lia].
+    { intros x Hxo Hx. rewrite Hout'; [|apply (okc_w_geom ft s s1 x G1); exact Hxo|lia].
       apply Hfr1; [lia|exact Hxo]. }
     split.
     { intros i o Hi Ho. rewrite Hres' by (try rewrite Gc; assumption).
-      exact (fat_set_reserved_kept ft s c v s1 i o Hcc Hc E1 Hi Ho). }
+      apply (mw_reserved_kept s s1 _ _ (reserved_len ft) i o Hmw); try assumption.
+      - apply okc_w_inside. exact Hcc.
+      - apply entry_off_reserved. exact Hc. }
     intros a Ha. rewrite Hfr' by (apply (outside_fat_geom s s1 a G1); exact Ha).
-    apply (mw_region s s1 _ _ a Hmw); [apply okc_ft_inside; exact Hcc|exact Ha].
+    apply (mw_region s s1 _ _ a Hmw); [apply okc_w_inside; exact Hcc|exact Ha].
 Qed.
 
 (* ------------------------------------------------------------------ one raw write through the slice *)
@@ -467,53 +575,86 @@ Lemma bits_to_ft t : bits_per_fat_entry t = bits_ft (to_fat_type t).
 Proof. destruct t; reflexivity. Qed.
 
 (* every whole entry of a copy of [size] bytes is addressable (below the FAT32 special range) *)
-Lemma okc_ft_entries ft s x : x < fs_size s * 8 / bits_ft ft -> fs_size s * 8 / bits_ft ft <= 268435447 ->
-  fs_size s <= 4294967295 -> okc_ft ft s x.
+(* every whole entry of a copy of [size] bytes is addressable *)
+Lemma okc_w_entries ft s x : x < fs_size s * 8 / bits_ft ft -> fs_size s <= 4294967295 -> okc_w ft s x.
 Proof.
-  intros Hx He Hs. destruct ft; cbn [okc_ft bits_ft] in *; unfold okc12, okc16, okc32, off12; lia.
+  intros Hx Hs. destruct ft; cbn [okc_w bits_ft] in *; unfold okc12, okc16, off12; lia.
 Qed.
 
 Lemma reserved_bytes_length t media : len_N (reserved_bytes t media) = reserved_len (to_fat_type t).
 Proof. destruct t; reflexivity. Qed.
 
+(* the value of a data-cluster entry / of a spare entry after format_fat: the FAT32 "BAD range" 0x0FFFFFF0 .. 0x0FFFFFFF
+   is marked Bad wherever the table reaches it - also inside the data clusters of a volume with more than
+   0x0FFFFFF0 - 2 clusters *)
+Definition data_val (x : N) : fatv := if 268435440 <=? x then Bad else Free.
+Definition spare_val (x : N) : fatv := if (268435440 <=? x) && (x <? 268435456) then Bad else Eoc.
+
 Lemma format_fat_spec t s media total :
   let ft := to_fat_type t in
   let E := fs_size s * 8 / bits_ft ft in
   media <= 255 -> (1 <= fs_mirrors s)%nat -> bytes_ok (fs_img s) -> 512 <= fs_size s <= 4294967295 ->
-  total + 2 <= E -> E <= 268435440 ->
+  total + 2 <= E -> total <= 268435444 ->
   (forall o, o < fs_size s -> ebyte s o = 0) -> copies_equal s ->
   exists s', format_fat s t media (fs_size s) total = Ok s' /\ geom_eq s s' /\ bytes_ok (fs_img s') /\ copies_equal s' /\
     (forall j, (j < length (reserved_bytes t media))%nat -> ebyte s' (N.of_nat j) = nth j (reserved_bytes t media) 0) /\
-    (forall x, 2 <= x < total + 2 -> val_ft ft s' x = Free) /\
-    (forall x, total + 2 <= x < E -> val_ft ft s' x = Eoc) /\
+    (forall x, 2 <= x < total + 2 -> val_ft ft s' x = data_val x) /\
+    (forall x, total + 2 <= x < E -> val_ft ft s' x = spare_val x) /\
     (forall a, outside_fat s a -> img_get (fs_img s') a = img_get (fs_img s) a).
 Proof.
-  intros ft E Hmed Hm Hb Hsz Htot HE Hzero Hce.
-  assert (forall x, x < E -> okc_ft ft s x) as Hokc by (intros x Hx; apply okc_ft_entries; unfold E in *; lia).
+  intros ft E Hmed Hm Hb Hsz Htot Hmax Hzero Hce.
+  assert (forall x, x < E -> okc_w ft s x) as Hokc by (intros x Hx; apply okc_w_entries; unfold E in *; lia).
   assert (reserved_len ft <= fs_size s) as Hres by (destruct ft; cbn [reserved_len]; lia).
+  assert (E < 4294967296) as HE32 by (unfold E; destruct ft; cbn [bits_ft]; lia).
   destruct (write_reserved_spec t s media Hmed Hm Hres Hb) as (s1 & E1 & G1 & Hb1 & Hc1 & Hin1 & Hout1 & Hfr1).
   pose proof G1 as (Ga & Gb & Gc). change (to_fat_type t) with ft in Hout1.
   unfold format_fat. rewrite E1. cbn [bind]. unfold RESERVED_FAT_ENTRIES.
   rewrite u32_add_ok by lia. cbn [bind].
   rewrite (bits_to_ft t). fold ft. fold E. unfold as_u32, two32. rewrite (N.mod_small E) by lia.
-  assert (forall x, 2 <= x < E -> val_ft ft s1 x = Free) as Hfree1.
+  assert (forall x, 2 <= x < total + 2 -> val_ft ft s1 x = Free) as Hfree1.
   { intros x Hx. apply val_ft_zero; [lia|]. intros o Ho.
-    pose proof (okc_ft_inside ft s x (Hokc x ltac:(lia))). pose proof (entry_off_reserved ft x ltac:(lia)).
+    pose proof (okc_w_inside ft s x (Hokc x ltac:(lia))). pose proof (entry_off_reserved ft x ltac:(lia)).
     rewrite Hout1 by lia. apply Hzero. lia. }
-  assert (okv_ft ft Eoc) as Hv by (destruct ft; exact I).
-  destruct (fill_entries_spec ft Eoc Hv (N.to_nat (E - (total + 2))) s1 (total + 2))
+  destruct (fill_entries_spec ft Eoc (or_introl eq_refl) (N.to_nat (E - (total + 2))) s1 (total + 2))
     as (s2 & E2 & G2 & Hb2 & Hc2 & Hin2 & Hout2 & Hres2 & Hfr2).
   { rewrite Gc. exact Hm. } { exact Hb1. } { lia. }
-  { intros x Hx. apply (okc_ft_geom ft s s1 x G1). apply Hokc. lia. }
-  rewrite E2. cbn [bind]. unfold BAD_RANGE_START.
-  destruct (268435440 <? E) eqn:Ebad; [apply N.ltb_lt in Ebad; lia|].
-  exists s2. split; [reflexivity|]. split; [exact (geom_eq_trans _ _ _ G1 G2)|]. split; [exact Hb2|].
-  split; [exact (Hc2 (Hc1 Hce))|]. split; [|split; [|split]].
-  - intros j Hj. rewrite <- (Hin1 j Hj). rewrite <- !copy_byte_0. apply Hres2; [rewrite Gc; lia|].
-    unfold ft. rewrite <- (reserved_bytes_length t media). unfold len_N. lia.
-  - intros x Hx. rewrite Hout2; [apply Hfree1; lia|apply (okc_ft_geom ft s s1 x G1); apply Hokc; lia|lia].
-  - intros x Hx. apply Hin2. lia.
-  - intros a Ha. rewrite Hfr2 by (apply (outside_fat_geom s s1 a G1); exact Ha). apply Hfr1. exact Ha.
+  { intros x Hx. apply (okc_w_geom ft s s1 x G1). apply Hokc. lia. }
+  rewrite E2. cbn [bind]. unfold BAD_RANGE_START, BAD_RANGE_END.
+  pose proof (geom_eq_trans _ _ _ G1 G2) as G12. pose proof G12 as (G12a & G12b & G12c).
+  assert (forall j, (j < length (reserved_bytes t media))%nat -> ebyte s2 (N.of_nat j) = nth j (reserved_bytes t media) 0) as Hr2.
+  { intros j Hj. rewrite <- (Hin1 j Hj). rewrite <- !copy_byte_0. apply Hres2; [rewrite Gc; lia|].
+    unfold ft. rewrite <- (reserved_bytes_length t media). unfold len_N. lia. }
+  assert (forall x, 2 <= x < total + 2 -> val_ft ft s2 x = Free) as Hd2.
+  { intros x Hx. rewrite Hout2; [apply Hfree1; lia|apply (okc_w_geom ft s s1 x G1); apply Hokc; lia|lia]. }
+  assert (forall x, total + 2 <= x < E -> val_ft ft s2 x = Eoc) as Hs2 by (intros x Hx; apply Hin2; lia).
+  assert (forall a, outside_fat s a -> img_get (fs_img s2) a = img_get (fs_img s) a) as Hf2.
+  { intros a Ha. rewrite Hfr2 by (apply (outside_fat_geom s s1 a G1); exact Ha). apply Hfr1. exact Ha. }
+  destruct (268435440 <? E) eqn:Ebad.
+  - apply N.ltb_lt in Ebad. set (eb := N.min 268435456 E).
+    assert (268435440 < eb <= E /\ eb <= 268435456) as Heb by (unfold eb; lia).
+    destruct (fill_entries_spec ft Bad (or_intror eq_refl) (N.to_nat (eb - 268435440)) s2 268435440)
+      as (s3 & E3 & G3 & Hb3 & Hc3 & Hin3 & Hout3 & Hres3 & Hfr3).
+    { rewrite G12c. exact Hm. } { exact Hb2. } { lia. }
+    { intros x Hx. apply (okc_w_geom ft s s2 x G12). apply Hokc. lia. }
+    exists s3. split; [exact E3|]. split; [exact (geom_eq_trans _ _ _ G12 G3)|]. split; [exact Hb3|].
+    split; [exact (Hc3 (Hc2 (Hc1 Hce)))|]. split; [|split; [|split]].
+    + intros j Hj. rewrite <- (Hr2 j Hj). rewrite <- !copy_byte_0. apply Hres3; [rewrite G12c; lia|].
+      unfold ft. rewrite <- (reserved_bytes_length t media). unfold len_N. lia.
+    + intros x Hx. unfold data_val. destruct (268435440 <=? x) eqn:Ex.
+      * apply N.leb_le in Ex. apply Hin3. lia.
+      * apply N.leb_gt in Ex. rewrite Hout3; [apply Hd2; exact Hx|apply (okc_w_geom ft s s2 x G12); apply Hokc; lia|lia].
+    + intros x Hx. unfold spare_val. destruct ((268435440 <=? x) && (x <? 268435456)) eqn:Ex.
+      * apply andb_true_iff in Ex. destruct Ex as [Ex1 Ex2]. apply N.leb_le in Ex1. apply N.ltb_lt in Ex2.
+        apply Hin3. unfold eb in *. lia.
+      * rewrite Hout3; [apply Hs2; exact Hx|apply (okc_w_geom ft s s2 x G12); apply Hokc; lia|].
+        apply andb_false_iff in Ex. destruct Ex as [Ex|Ex]; [apply N.leb_gt in Ex|apply N.ltb_ge in Ex]; unfold eb in *; lia.
+    + intros a Ha. rewrite Hfr3 by (apply (outside_fat_geom s s2 a G12); exact Ha). apply Hf2. exact Ha.
+  - apply N.ltb_ge in Ebad.
+    exists s2. split; [reflexivity|]. split; [exact G12|]. split; [exact Hb2|].
+    split; [exact (Hc2 (Hc1 Hce))|]. split; [exact Hr2|]. split; [|split; [|exact Hf2]].
+    + intros x Hx. unfold data_val. destruct (268435440 <=? x) eqn:Ex; [apply N.leb_le in Ex; lia|]. apply Hd2. exact Hx.
+    + intros x Hx. unfold spare_val. destruct (268435440 <=? x) eqn:Ex; [apply N.leb_le in Ex; lia|]. cbn [andb].
+      apply Hs2. exact Hx.
 Qed.
 
 (* ================================================================== a 512-byte structure written at the start of a
@@ -565,23 +706,23 @@ Record fat_state (t : Format.fat_type) (media total E : N) (root : option N) (s 
   st_reserved : forall j, (j < length (reserved_bytes t media))%nat ->
                   ebyte s (N.of_nat j) = nth j (reserved_bytes t media) 0;
   st_data : forall x, 2 <= x < total + 2 ->
-              val_ft (to_fat_type t) s x = if (match root with Some c => x =? c | None => false end) then Eoc else Free;
-  st_spare : forall x, total + 2 <= x < E -> val_ft (to_fat_type t) s x = Eoc }.
+              val_ft (to_fat_type t) s x = if (match root with Some c => x =? c | None => false end) then Eoc else data_val x;
+  st_spare : forall x, total + 2 <= x < E -> val_ft (to_fat_type t) s x = spare_val x }.
 
 (* a store whose copies hold the same bytes has the same state *)
 Lemma fat_state_ext t media total E root s s' :
-  geom_eq s s' -> bytes_ok (fs_img s') -> E = fs_size s * 8 / bits_ft (to_fat_type t) -> E <= 268435447 ->
+  geom_eq s s' -> bytes_ok (fs_img s') -> E = fs_size s * 8 / bits_ft (to_fat_type t) ->
   total + 2 <= E -> 8 <= fs_size s <= 4294967295 -> (1 <= fs_mirrors s)%nat ->
   (forall i o, i < N.of_nat (fs_mirrors s) -> o < fs_size s -> copy_byte s' i o = copy_byte s i o) ->
   fat_state t media total E root s -> fat_state t media total E root s'.
 Proof.
-  intros (G1 & G2 & G3) Hb HE HE2 Htot Hsz Hm Hsame [S1 S2 S3 S4 S5].
+  intros (G1 & G2 & G3) Hb HE Htot Hsz Hm Hsame [S1 S2 S3 S4 S5].
   assert (forall o, o < fs_size s -> ebyte s' o = ebyte s o) as Heb.
   { intros o Ho. rewrite <- !copy_byte_0. apply Hsame; [lia|exact Ho]. }
   assert (forall x, x < E -> forall o, entry_off (to_fat_type t) x <= o < entry_off (to_fat_type t) x + entry_len (to_fat_type t) ->
             ebyte s' o = ebyte s o) as Hent.
   { intros x Hx o Ho. apply Heb.
-    assert (okc_ft (to_fat_type t) s x) as Hok by (apply okc_ft_entries; lia). apply okc_ft_inside in Hok. lia. }
+    assert (okc_w (to_fat_type t) s x) as Hok by (apply okc_w_entries; lia). apply okc_w_inside in Hok. lia. }
   constructor.
   - exact Hb.
   - intros i o Hi Ho. rewrite G3 in Hi. rewrite G2 in Ho. rewrite (Hsame i o Hi Ho), (Hsame 0 o); [apply S2; assumption|lia|exact Ho].
@@ -593,13 +734,10 @@ Qed.
 Lemma geo_bps g t : geo_ok g t -> 512 <= q_bps g <= 4096.
 Proof. intros (H & _). apply In_bps_cases in H. lia. Qed.
 
-Lemma entries_size_bound S bits E : E = S * 8 / bits -> (bits = 12 \/ bits = 16 \/ bits = 32) -> E <= 268435447 -> S <= 1073741791.
-Proof. intros -> Hb H. destruct Hb as [->|[->| ->]]; lia. Qed.
-
 Lemma bits_ft_cases ft : bits_ft ft = 12 \/ bits_ft ft = 16 \/ bits_ft ft = 32.
 Proof. destruct ft; cbn; auto. Qed.
 
-Lemma fat_phase t g im2 : geo_ok g t -> entries_of g t <= 268435440 -> bytes_ok im2 ->
+Lemma fat_phase t g im2 : geo_ok g t -> bytes_ok im2 ->
   let B := q_bps g in
   let SZ := q_spf g * B in
   let pF := q_r g * B in
@@ -609,22 +747,22 @@ Lemma fat_phase t g im2 : geo_ok g t -> entries_of g t <= 268435440 -> bytes_ok 
     fat_state t (q_media g) (q_total g) (entries_of g t) None s1 /\
     (forall a, a < pF \/ pF + FS <= a -> img_get (fs_img s1) a = img_get im2 a).
 Proof.
-  intros Hg HE Hb B SZ pF FS s0. pose proof (geo_bps g t Hg) as HB.
-  destruct Hg as (_ & Hspc & Hr & Hf & Hspf & Hrds & H32 & Hfit & Hcap & Hfc & Hmax & Hmed).
-  fold B in HB.
+  intros Hg Hb B SZ pF FS s0. pose proof (geo_bps g t Hg) as HB.
+  destruct Hg as (_ & Hspc & Hr & Hf & Hspf & Hrds & H32 & Hfit & Hcap & Hfc & Hmax & Hmed & HSZ2).
+  fold B in HB, HSZ2. fold SZ in HSZ2.
   assert (entries_of g t = SZ * 8 / bits_ft (to_fat_type t)) as EE by (unfold entries_of; rewrite bits_to_ft; reflexivity).
   assert (B <= SZ) as HSZ1 by (unfold SZ; nia).
-  assert (SZ <= 1073741791) as HSZ2 by (apply (entries_size_bound SZ _ _ EE (bits_ft_cases _)); lia).
   assert (FS = q_f g * SZ) as HFS by (unfold FS, SZ; lia).
   assert (SZ <= FS) as HFS1 by (rewrite HFS; nia).
   assert (N.of_nat (N.to_nat (q_f g)) = q_f g) as Hm by apply N2Nat.id.
+  assert (q_total g <= 268435444) as Hmax' by (destruct t; cbn [max_clusters] in Hmax; lia).
   destruct (format_fat_spec t s0 (q_media g) (q_total g)) as (s1 & E1 & G1 & Hb1 & Hc1 & Hres1 & Hd1 & Hs1 & Hfr1).
   - exact Hmed.
   - cbn [s0 mk_store fs_mirrors]. lia.
   - cbn [s0 mk_store fs_img]. apply write_zeros_bytes_ok. exact Hb.
   - cbn [s0 mk_store fs_size]. lia.
   - cbn [s0 mk_store fs_size]. rewrite <- EE. exact Hcap.
-  - cbn [s0 mk_store fs_size]. rewrite <- EE. exact HE.
+  - exact Hmax'.
   - intros o Ho. unfold ebyte. cbn [s0 mk_store fs_size fs_img fs_base] in *.
     rewrite img_get_zeros. fold (in_rng pF (pF + FS) (pF + o)). rewrite in_rng_true by lia. reflexivity.
   - intros i o Hi Ho. unfold copy_byte. cbn [s0 mk_store fs_size fs_img fs_base fs_mirrors] in *.
@@ -646,23 +784,24 @@ Qed.
 (* FAT32: alloc_cluster(None, None, 1) on the freshly formatted table takes cluster 2 *)
 Lemma alloc_root_spec media total E s :
   fat_state Format.Fat32 media total E None s -> (1 <= fs_mirrors s)%nat -> 1 <= total ->
-  E = fs_size s * 8 / 32 -> total + 2 <= E -> E <= 268435440 -> fs_size s <= 4294967295 ->
+  E = fs_size s * 8 / 32 -> total + 2 <= E -> fs_size s <= 4294967295 ->
   exists s', alloc_cluster fstore (fat_get Fat.Fat32) (fat_set Fat.Fat32) s None None 1 = Ok (s', 2) /\
     geom_eq s s' /\ fat_state Format.Fat32 media total E (Some 2) s' /\
     (forall a, outside_fat s a -> img_get (fs_img s') a = img_get (fs_img s) a).
 Proof.
-  intros [S1 S2 S3 S4 S5] Hm Htot HE Hcap Hmax Hsz. cbn [to_fat_type] in *.
-  assert (forall x, x < E -> okc_ft Fat.Fat32 s x) as Hokc.
-  { intros x Hx. apply okc_ft_entries; cbn [bits_ft]; lia. }
-  destruct (fill_entries_spec Fat.Fat32 Eoc I 1 s 2 Hm S1 ltac:(lia)) as (s' & E' & G' & Hb' & Hce' & Hin' & Hout' & Hres' & Hfr').
+  intros [S1 S2 S3 S4 S5] Hm Htot HE Hcap Hsz. cbn [to_fat_type] in *.
+  assert (forall x, x < E -> okc_w Fat.Fat32 s x) as Hokc.
+  { intros x Hx. apply okc_w_entries; cbn [bits_ft]; lia. }
+  destruct (fill_entries_spec Fat.Fat32 Eoc (or_introl eq_refl) 1 s 2 Hm S1 ltac:(lia)) as (s' & E' & G' & Hb' & Hce' & Hin' & Hout' & Hres' & Hfr').
   { intros x Hx. apply Hokc. lia. }
   cbn [fill_entries fat_set] in E'.
   destruct (set32 s 2 Eoc) as [s1| | |] eqn:Eset; cbn [bind] in E'; try discriminate. apply Ok_inj in E'. subst s1.
   exists s'. split.
   - unfold alloc_cluster, RESERVED_FAT_ENTRIES, find_free. cbn [fat_get fat_set].
     replace (N.to_nat (1 + 2 - 2)) with 1%nat by reflexivity. cbn [find_free_from].
-    rewrite (get32_val s 2 (Hokc 2 ltac:(lia))). cbn [bind]. change (val32 s 2) with (val_ft Fat.Fat32 s 2).
-    rewrite (S4 2 ltac:(lia)). cbn [bind]. rewrite Eset. reflexivity.
+    assert (okc32 s 2) as H2 by (destruct (Hokc 2 ltac:(lia)) as [A _]; unfold okc32; lia).
+    rewrite (get32_val s 2 H2). cbn [bind]. change (val32 s 2) with (val_ft Fat.Fat32 s 2).
+    rewrite (S4 2 ltac:(lia)). change (data_val 2) with Free. cbn [bind]. rewrite Eset. reflexivity.
   - split; [exact G'|]. split; [|exact Hfr']. constructor.
     + exact Hb'.
     + exact (Hce' S2).
@@ -677,11 +816,11 @@ Qed.
 (* the state of the FAT copies only depends on the bytes of the copies *)
 Lemma fat_state_img t media total E root s im' pF SZ m :
   fs_base s = pF -> fs_size s = SZ -> fs_mirrors s = m -> (1 <= m)%nat -> bytes_ok im' ->
-  E = SZ * 8 / bits_ft (to_fat_type t) -> E <= 268435447 -> total + 2 <= E -> 8 <= SZ <= 4294967295 ->
+  E = SZ * 8 / bits_ft (to_fat_type t) -> total + 2 <= E -> 8 <= SZ <= 4294967295 ->
   (forall a, pF <= a < pF + N.of_nat m * SZ -> img_get im' a = img_get (fs_img s) a) ->
   fat_state t media total E root s -> fat_state t media total E root (mk_store im' pF SZ m).
 Proof.
-  intros Hb Hs Hmm Hm Hbo HE HE2 Htot Hsz Hsame Hst.
+  intros Hb Hs Hmm Hm Hbo HE Htot Hsz Hsame Hst.
   apply (fat_state_ext t media total E root s (mk_store im' pF SZ m)); try assumption.
   - unfold geom_eq, mk_store. cbn [fs_base fs_size fs_mirrors]. repeat split; symmetry; assumption.
   - rewrite Hs. exact HE.
@@ -724,7 +863,7 @@ Qed.
 
 (* ================================================================== format_volume after validation, as a whole *)
 Lemma format_image_with_spec o b t g im0 :
-  geo_ok g t -> bpb_facts b t g -> entries_of g t <= 268435440 ->
+  geo_ok g t -> bpb_facts b t g ->
   length (fmt_serialize_boot (format_boot_sector_with b t)) = 512%nat ->
   blist_ok (fmt_serialize_boot (format_boot_sector_with b t)) -> bytes_ok im0 ->
   (forall l, o_volume_label o = Some l -> length l = 11%nat /\ blist_ok l) ->
@@ -737,8 +876,8 @@ Lemma format_image_with_spec o b t g im0 :
                         ((q_r g + q_f g * q_spf g) * q_bps g)
                         (if fat_type_eqb t Format.Fat32 then q_spc g * q_bps g else q_rds g * q_bps g) x).
 Proof.
-  intros Hg Hbf HE Hlen Hbok Hb0 Hlab.
-  pose proof (geo_bps g t Hg) as HB. pose proof Hg as (HBin & Hspc & Hr & Hf & Hspf & Hrds & H32 & Hfit & Hcap & Hfc & Hmax & Hmed).
+  intros Hg Hbf Hlen Hbok Hb0 Hlab.
+  pose proof (geo_bps g t Hg) as HB. pose proof Hg as (HBin & Hspc & Hr & Hf & Hspf & Hrds & H32 & Hfit & Hcap & Hfc & Hmax & Hmed & HSZ2).
   destruct Hbf as [F1 F2 F3 F4 F5 F6 F7 F8 F9 F10 F11 F12 F13 F14].
   set (boot := format_boot_sector_with b t) in *. set (bytes := fmt_serialize_boot boot) in *.
   set (B := q_bps g) in *. set (SZ := q_spf g * B). set (pF := q_r g * B). set (FS := q_f g * q_spf g * B).
@@ -746,7 +885,7 @@ Proof.
   set (m := N.to_nat (q_f g)).
   assert (entries_of g t = SZ * 8 / bits_ft (to_fat_type t)) as EE by (unfold entries_of; rewrite bits_to_ft; reflexivity).
   assert (B <= SZ) as HSZ1 by (unfold SZ; nia).
-  assert (SZ <= 1073741791) as HSZ2 by (apply (entries_size_bound SZ _ _ EE (bits_ft_cases _)); lia).
+  fold SZ in HSZ2.
   assert (FS = q_f g * SZ) as HFS by (unfold FS, SZ; lia).
   assert (SZ <= FS) as HFS1 by (rewrite HFS; nia).
   assert (pR = pF + FS) as HpR by (unfold pR, pF, FS; lia).
@@ -781,7 +920,7 @@ Proof.
   (* FAT copies *)
   unfold fmt_fat_slice. rewrite F6. change (N.land 0 128 =? 0) with true. cbv iota. cbn [bind].
   rewrite F3, F1, F8, F4, F14. fold B. fold SZ. fold pF. fold m. cbn [bind]. rewrite F5.
-  destruct (fat_phase t g im2 Hg HE K2) as (s1 & E3 & G3 & St3 & Fr3).
+  destruct (fat_phase t g im2 Hg K2) as (s1 & E3 & G3 & St3 & Fr3).
   fold B in E3, Fr3. fold SZ in E3. fold pF in E3, Fr3. fold FS in E3, Fr3. fold m in E3. unfold mk_store in E3.
   rewrite E3. cbn [bind].
   destruct G3 as (G3a & G3b & G3c). cbn [mk_store fs_base fs_size fs_mirrors] in G3a, G3b, G3c.
@@ -870,24 +1009,10 @@ Proof.
 Qed.
 
 (* ================================================================== accepted requests: everything about the image *)
-(* FAT12/16 tables are far below the FAT32 reserved cluster numbers *)
-Lemma small_fat_entries g t : geo_ok g t -> t <> Format.Fat32 -> q_spf g <= 65535 -> entries_of g t <= 268435440.
-Proof.
-  intros Hg Hne Hs. pose proof (geo_bps g t Hg) as HB. unfold entries_of.
-  assert (q_spf g * q_bps g <= 65535 * 4096) as H by nia.
-  destruct t; cbn [bits_per_fat_entry]; try contradiction; lia.
-Qed.
-
 Lemma sp_is32_eqb t : sp_is32 t = fat_type_eqb t Format.Fat32.
 Proof. destruct t; reflexivity. Qed.
 Lemma sp_bits_eq t : sp_bits t = bits_per_fat_entry t.
 Proof. destruct t; reflexivity. Qed.
-
-(* the premise of the image-level theorems: the FAT has no entry in the FAT32 "BAD range" 0x0FFFFFF0.. (always true
-   for FAT12/16; for FAT32 true unless the volume has more than 268435438 - 1024 clusters, i.e. >= 128 GiB with
-   512-byte clusters) *)
-Definition below_bad_range (b : fbpb) (t : Format.fat_type) : Prop :=
-  t = Format.Fat32 -> sp_fat_entries b t <= 268435440.
 
 Record image_facts (o : fmt_options) (bs : fboot) (t : Format.fat_type) (im0 im : image) : Prop := {
   if_bytes : bytes_ok im;
@@ -903,21 +1028,16 @@ Record image_facts (o : fmt_options) (bs : fboot) (t : Format.fat_type) (im0 im 
                                  (if fat_type_eqb t Format.Fat32 then q_spc g * q_bps g else q_rds g * q_bps g) x) }.
 
 Theorem format_image_facts o ts im0 bs t : builder_range o -> ts < 4294967296 -> bytes_ok im0 ->
-  format_boot_sector_validated o ts = Ok (bs, t) -> below_bad_range (fbs_bpb bs) t ->
+  format_boot_sector_validated o ts = Ok (bs, t) ->
   exists im, format_image o ts im0 = Ok im /\ image_facts o bs t im0 im.
 Proof.
-  intros Hb Hts Hb0 Hv Hbad.
+  intros Hb Hts Hb0 Hv.
   destruct (accepted_geo o ts bs t Hb Hts Hv) as (g & Hg & Hbf & Hbs & Hlen & Hbok & Hmed & Hbps & Hfats & T1 & T3 & T5 & H16).
-  assert (entries_of g t <= 268435440) as HE.
-  { destruct (fat_type_eqb t Format.Fat32) eqn:E32.
-    - apply fat_type_eqb_eq in E32. specialize (Hbad E32). unfold sp_fat_entries in Hbad. unfold entries_of.
-      rewrite T1, <- (bf_bps _ _ _ Hbf), <- sp_bits_eq. exact Hbad.
-    - assert (t <> Format.Fat32) as Hne by (intros ->; discriminate). apply (small_fat_entries g t Hg Hne). apply (H16 Hne). }
   assert (forall l, o_volume_label o = Some l -> length l = 11%nat /\ blist_ok l) as Hlab.
   { intros l El. destruct Hb as (_ & _ & _ & _ & _ & _ & _ & _ & _ & _ & Hl). destruct (Hl l El) as [L1 L2].
     split; [exact L1|apply blist_ok_forall; exact L2]. }
   rewrite Hbs in Hlen, Hbok.
-  destruct (format_image_with_spec o (fbs_bpb bs) t g im0 Hg Hbf HE Hlen Hbok Hb0 Hlab) as (im & E & K & St & L).
+  destruct (format_image_with_spec o (fbs_bpb bs) t g im0 Hg Hbf Hlen Hbok Hb0 Hlab) as (im & E & K & St & L).
   exists im. split.
   - unfold format_image. rewrite Hv. cbn [bind fst snd]. rewrite Hbs. exact E.
   - constructor; [exact K|]. exists g. rewrite <- Hbs in *.
@@ -949,10 +1069,10 @@ Proof.
 Qed.
 
 Lemma image_facts_of o ts im0 bs t im : builder_range o -> ts < 4294967296 -> bytes_ok im0 ->
-  format_boot_sector_validated o ts = Ok (bs, t) -> below_bad_range (fbs_bpb bs) t ->
+  format_boot_sector_validated o ts = Ok (bs, t) ->
   format_image o ts im0 = Ok im -> image_facts o bs t im0 im.
 Proof.
-  intros Hb Hts Hb0 Hv Hbad E. destruct (format_image_facts o ts im0 bs t Hb Hts Hb0 Hv Hbad) as (im' & E' & F).
+  intros Hb Hts Hb0 Hv E. destruct (format_image_facts o ts im0 bs t Hb Hts Hb0 Hv) as (im' & E' & F).
   rewrite E in E'. apply Ok_inj in E'. subst im'. exact F.
 Qed.
 
@@ -966,15 +1086,14 @@ Ltac rng_eval :=
 (* (a) the boot sector: sector 0 holds the 512 serialized bytes and zeros up to the end of the logical sector; on
    FAT32 the backup sector (sector 6) is an exact copy of sector 0 *)
 Theorem image_boot_sector o ts im0 bs t im : builder_range o -> ts < 4294967296 -> bytes_ok im0 ->
-  format_boot_sector_validated o ts = Ok (bs, t) -> below_bad_range (fbs_bpb bs) t ->
-  format_image o ts im0 = Ok im ->
+  format_boot_sector_validated o ts = Ok (bs, t) -> format_image o ts im0 = Ok im ->
   img_read im 0 512 = fmt_serialize_boot bs /\
   (forall x, 512 <= x < fb_bytes_per_sector (fbs_bpb bs) -> img_get im x = 0) /\
   (t = Format.Fat32 -> forall i, i < fb_bytes_per_sector (fbs_bpb bs) ->
                          img_get im (fi_backup_pos (fbs_bpb bs) + i) = img_get im i).
 Proof.
-  intros Hb Hts Hb0 Hv Hbad E.
-  destruct (image_facts_of o ts im0 bs t im Hb Hts Hb0 Hv Hbad E) as [K (g & Hg & Hbf & T1 & T3 & T5 & Hmed & Hrds1 & Hlen & St & L)].
+  intros Hb Hts Hb0 Hv E.
+  destruct (image_facts_of o ts im0 bs t im Hb Hts Hb0 Hv E) as [K (g & Hg & Hbf & T1 & T3 & T5 & Hmed & Hrds1 & Hlen & St & L)].
   destruct (layout_lin g t Hg) as (HB & HpR & HSZ & HFS & HFS2 & H32 & H16 & Hcl & Hrl).
   rewrite (bf_bps _ _ _ Hbf). unfold fi_backup_pos. rewrite (bf_backup _ _ _ Hbf), (bf_bps _ _ _ Hbf).
   set (B := q_bps g) in *. set (pF := q_r g * B) in *. set (FS := q_f g * q_spf g * B) in *.
@@ -999,12 +1118,11 @@ Qed.
 
 (* (e) frame: a byte that belongs to none of the structures keeps the value it had on the device before *)
 Theorem image_frame o ts im0 bs t im : builder_range o -> ts < 4294967296 -> bytes_ok im0 ->
-  format_boot_sector_validated o ts = Ok (bs, t) -> below_bad_range (fbs_bpb bs) t ->
-  format_image o ts im0 = Ok im ->
+  format_boot_sector_validated o ts = Ok (bs, t) -> format_image o ts im0 = Ok im ->
   forall x, fi_written (fbs_bpb bs) t x = false -> img_get im x = img_get im0 x.
 Proof.
-  intros Hb Hts Hb0 Hv Hbad E x Hw.
-  destruct (image_facts_of o ts im0 bs t im Hb Hts Hb0 Hv Hbad E) as [K (g & Hg & Hbf & T1 & T3 & T5 & Hmed & Hrds1 & Hlen & St & L)].
+  intros Hb Hts Hb0 Hv E x Hw.
+  destruct (image_facts_of o ts im0 bs t im Hb Hts Hb0 Hv E) as [K (g & Hg & Hbf & T1 & T3 & T5 & Hmed & Hrds1 & Hlen & St & L)].
   destruct (layout_lin g t Hg) as (HB & HpR & HSZ & HFS & HFS2 & H32 & H16 & Hcl & Hrl).
   unfold fi_written, fi_fsinfo_pos, fi_backup_pos, fi_fat_pos, fi_fat_bytes, fi_root_pos, fi_root_len in Hw.
   rewrite (bf_bps _ _ _ Hbf), (bf_backup _ _ _ Hbf), (bf_fsinfo _ _ _ Hbf), (bf_r _ _ _ Hbf), (bf_f _ _ _ Hbf),
@@ -1116,15 +1234,14 @@ Qed.
    slot 0; the independent decoder finds no entry, no issue and exactly the label (unless its first byte is the end
    or the deleted marker) *)
 Theorem image_root_dir o ts im0 bs t im : builder_range o -> ts < 4294967296 -> bytes_ok im0 ->
-  format_boot_sector_validated o ts = Ok (bs, t) -> below_bad_range (fbs_bpb bs) t ->
-  format_image o ts im0 = Ok im ->
+  format_boot_sector_validated o ts = Ok (bs, t) -> format_image o ts im0 = Ok im ->
   (forall i, i < fi_root_len (fbs_bpb bs) t ->
      img_get im (fi_root_pos (fbs_bpb bs) + i) = nth (N.to_nat i) (label_bytes o) 0) /\
   (forall n fat32, (32 <= n)%nat -> N.of_nat n <= fi_root_len (fbs_bpb bs) t ->
      Abs.dir_scan (Abs.slots_of (img_read im (fi_root_pos (fbs_bpb bs)) n)) 0 [] fat32 = ([], expected_labels o, [])).
 Proof.
-  intros Hb Hts Hb0 Hv Hbad E.
-  destruct (image_facts_of o ts im0 bs t im Hb Hts Hb0 Hv Hbad E) as [K (g & Hg & Hbf & T1 & T3 & T5 & Hmed & Hrds1 & Hlen & St & L)].
+  intros Hb Hts Hb0 Hv E.
+  destruct (image_facts_of o ts im0 bs t im Hb Hts Hb0 Hv E) as [K (g & Hg & Hbf & T1 & T3 & T5 & Hmed & Hrds1 & Hlen & St & L)].
   destruct (layout_lin g t Hg) as (HB & HpR & HSZ & HFS & HFS2 & H32 & H16 & Hcl & Hrl).
   unfold fi_root_pos, fi_root_len.
   rewrite (bf_bps _ _ _ Hbf), (bf_r _ _ _ Hbf), (bf_f _ _ _ Hbf), (bf_spc _ _ _ Hbf), <- T1, <- T3, sp_is32_eqb.
@@ -1207,16 +1324,15 @@ Proof.
 Qed.
 
 Theorem image_fat o ts im0 bs t im : builder_range o -> ts < 4294967296 -> bytes_ok im0 ->
-  format_boot_sector_validated o ts = Ok (bs, t) -> below_bad_range (fbs_bpb bs) t ->
-  format_image o ts im0 = Ok im ->
+  format_boot_sector_validated o ts = Ok (bs, t) -> format_image o ts im0 = Ok im ->
   let s := fi_fat_store im (fbs_bpb bs) in
   copies_equal s /\ reserved_entries_ok t s (o_media o) /\
   (forall x, 2 <= x < sp_clusters (fbs_bpb bs) + 2 ->
-     val_ft (to_fat_type t) s x = if sp_is32 t && (x =? 2) then Eoc else Free) /\
-  (forall x, sp_clusters (fbs_bpb bs) + 2 <= x < sp_fat_entries (fbs_bpb bs) t -> val_ft (to_fat_type t) s x = Eoc).
+     val_ft (to_fat_type t) s x = if sp_is32 t && (x =? 2) then Eoc else data_val x) /\
+  (forall x, sp_clusters (fbs_bpb bs) + 2 <= x < sp_fat_entries (fbs_bpb bs) t -> val_ft (to_fat_type t) s x = spare_val x).
 Proof.
-  intros Hb Hts Hb0 Hv Hbad E s.
-  destruct (image_facts_of o ts im0 bs t im Hb Hts Hb0 Hv Hbad E) as [K (g & Hg & Hbf & T1 & T3 & T5 & Hmed & Hrds1 & Hlen & St & L)].
+  intros Hb Hts Hb0 Hv E s.
+  destruct (image_facts_of o ts im0 bs t im Hb Hts Hb0 Hv E) as [K (g & Hg & Hbf & T1 & T3 & T5 & Hmed & Hrds1 & Hlen & St & L)].
   destruct St as [S1 S2 S3 S4 S5]. fold s in S1, S2, S3, S4, S5. rewrite <- T5, <- Hmed.
   assert (sp_fat_entries (fbs_bpb bs) t = entries_of g t) as HE.
   { unfold sp_fat_entries, entries_of. rewrite T1, (bf_bps _ _ _ Hbf), sp_bits_eq. reflexivity. }
@@ -1224,6 +1340,25 @@ Proof.
   - apply reserved_entries_of_bytes; [apply Hg|exact S3].
   - split; [|exact S5]. intros x Hx. rewrite (S4 x Hx), sp_is32_eqb.
     destruct (fat_type_eqb t Format.Fat32); reflexivity.
+Qed.
+
+(* below the BAD range (every FAT12/16 volume; FAT32 volumes of at most 0x0FFFFFF0 - 2 clusters) the values are Free
+   and EndOfChain *)
+Lemma data_val_small x : x < 268435440 -> data_val x = Free.
+Proof. intros H. unfold data_val. destruct (268435440 <=? x) eqn:E; [apply N.leb_le in E; lia|reflexivity]. Qed.
+Lemma spare_val_small x : x < 268435440 -> spare_val x = Eoc.
+Proof. intros H. unfold spare_val. destruct (268435440 <=? x) eqn:E; [apply N.leb_le in E; lia|reflexivity]. Qed.
+
+(* FAT12/16 tables never reach that range *)
+Lemma small_fat_entries o ts bs t : builder_range o -> ts < 4294967296 ->
+  format_boot_sector_validated o ts = Ok (bs, t) -> t <> Format.Fat32 -> sp_fat_entries (fbs_bpb bs) t <= 268435440.
+Proof.
+  intros Hb Hts Hv Hne.
+  destruct (accepted_geo o ts bs t Hb Hts Hv) as (g & Hg & Hbf & Hbs & Hlen & Hbok & Hmed & Hbps & Hfats & T1 & T3 & T5 & H16).
+  destruct (H16 Hne) as (_ & _ & Hs). pose proof (geo_bps g t Hg) as HB.
+  unfold sp_fat_entries. rewrite <- T1, (bf_bps _ _ _ Hbf), sp_bits_eq.
+  assert (q_spf g * q_bps g <= 65535 * 4096) as H by nia.
+  destruct t; cbn [bits_per_fat_entry]; try contradiction; lia.
 Qed.
 
 (* ================================================================== (d) free space *)
@@ -1255,34 +1390,63 @@ Proof.
   rewrite <- (u32_word v Hv) at 5. lia.
 Qed.
 
-(* (d) the number of free entries among the data clusters is the cluster count (minus the root cluster on FAT32), and
-   the FS-info sector of a FAT32 volume carries exactly this count and the hint 3 (= root cluster + 1, a data cluster) *)
+Lemma cnt_split f : forall n1 n2 c, cnt f c (n1 + n2) = cnt f c n1 + cnt f (c + N.of_nat n1) n2.
+Proof.
+  induction n1 as [|n1 IH]; intros n2 c; cbn [cnt Nat.add].
+  - rewrite N.add_0_r. reflexivity.
+  - rewrite IH. replace (c + 1 + N.of_nat n1) with (c + N.of_nat (S n1)) by lia. lia.
+Qed.
+
+Lemma cnt_none_free f : forall n c, (forall x, c <= x < c + N.of_nat n -> is_free (f x) = false) -> cnt f c n = 0.
+Proof.
+  induction n as [|n IH]; intros c H; cbn [cnt]; [reflexivity|].
+  rewrite (H c) by lia. rewrite IH by (intros x Hx; apply H; lia). reflexivity.
+Qed.
+
+(* clusters of a FAT32 volume that format_fat marks Bad because their numbers lie in 0x0FFFFFF0 .. (0 unless the volume
+   has more than 0x0FFFFFF0 - 2 = 268435438 clusters, at most 6) *)
+Definition bad_range_clusters (total : N) : N := total + 2 - 268435440.
+
+(* (d) the number of free entries among the data clusters is the cluster count minus the root cluster (FAT32) minus the
+   clusters in the BAD range; the FS-info sector of a FAT32 volume carries the cluster count minus one and the hint 3
+   (= root cluster + 1, a data cluster) *)
 Theorem image_free_space o ts im0 bs t im : builder_range o -> ts < 4294967296 -> bytes_ok im0 ->
-  format_boot_sector_validated o ts = Ok (bs, t) -> below_bad_range (fbs_bpb bs) t ->
-  format_image o ts im0 = Ok im ->
+  format_boot_sector_validated o ts = Ok (bs, t) -> format_image o ts im0 = Ok im ->
   let b := fbs_bpb bs in
   let total := sp_clusters b in
-  count_spec fstore (val_ft (to_fat_type t)) (fi_fat_store im b) 2 (N.to_nat total) = (if sp_is32 t then total - 1 else total) /\
+  count_spec fstore (val_ft (to_fat_type t)) (fi_fat_store im b) 2 (N.to_nat total) =
+    (if sp_is32 t then total - 1 else total) - bad_range_clusters total /\
+  (t <> Format.Fat32 -> bad_range_clusters total = 0) /\
   (t = Format.Fat32 ->
      img_read im (fi_fsinfo_pos b) 512 = fsinfo_bytes (total - 1) 3 /\
      (forall x, 512 <= x < fb_bytes_per_sector b -> img_get im (fi_fsinfo_pos b + x) = 0) /\
      img_u32 im (fi_fsinfo_pos b + 488) = total - 1 /\ img_u32 im (fi_fsinfo_pos b + 492) = 3 /\ 3 < total + 2).
 Proof.
-  intros Hb Hts Hb0 Hv Hbad E b total.
-  destruct (image_facts_of o ts im0 bs t im Hb Hts Hb0 Hv Hbad E) as [K (g & Hg & Hbf & T1 & T3 & T5 & Hmed & Hrds1 & Hlen & St & L)].
+  intros Hb Hts Hb0 Hv E b total.
+  destruct (image_facts_of o ts im0 bs t im Hb Hts Hb0 Hv E) as [K (g & Hg & Hbf & T1 & T3 & T5 & Hmed & Hrds1 & Hlen & St & L)].
   destruct (layout_lin g t Hg) as (HB & HpR & HSZ & HFS & HFS2 & H32 & H16 & Hcl & Hrl).
   destruct St as [S1 S2 S3 S4 S5]. fold b in S1, S2, S3, S4, S5, Hbf, T1, T3, T5. unfold total. rewrite <- T5.
-  split.
-  - unfold count_spec. rewrite sp_is32_eqb. destruct (fat_type_eqb t Format.Fat32) eqn:E32.
-    + apply fat_type_eqb_eq in E32. destruct (H32 E32) as (_ & _ & Htot).
-      destruct (N.to_nat (q_total g)) as [|k] eqn:Ek; [lia|]. cbn [cnt].
-      rewrite (S4 2) by lia. cbn [N.eqb Pos.eqb is_free].
-      rewrite cnt_all_free; [lia|]. intros x Hx. rewrite (S4 x) by lia.
-      destruct (N.eqb_spec x 2); [lia|reflexivity].
-    + rewrite cnt_all_free; [lia|]. intros x Hx. rewrite (S4 x) by lia. reflexivity.
+  assert (q_total g <= max_clusters t) as Hmax by apply Hg.
+  split; [|split].
+  - unfold count_spec, bad_range_clusters. rewrite sp_is32_eqb.
+    set (f := val_ft (to_fat_type t) (fi_fat_store im b)) in *.
+    set (m := N.min (q_total g + 2) 268435440).
+    destruct (fat_type_eqb t Format.Fat32) eqn:E32.
+    + apply fat_type_eqb_eq in E32. destruct (H32 E32) as (_ & _ & Htot). rewrite E32 in Hmax. cbn [max_clusters] in Hmax.
+      replace (N.to_nat (q_total g)) with (1 + (N.to_nat (m - 3) + N.to_nat (q_total g + 2 - m)))%nat by (unfold m; lia).
+      rewrite cnt_split. cbn [cnt]. rewrite (S4 2) by lia. cbn [N.eqb Pos.eqb is_free].
+      rewrite cnt_split. rewrite cnt_all_free, cnt_none_free.
+      * unfold m. lia.
+      * intros x Hx. rewrite (S4 x) by (unfold m in *; lia). destruct (N.eqb_spec x 2); [lia|].
+        unfold data_val. destruct (268435440 <=? x) eqn:Ex; [reflexivity|apply N.leb_gt in Ex; unfold m in *; lia].
+      * intros x Hx. rewrite (S4 x) by (unfold m in *; lia). destruct (N.eqb_spec x 2); [lia|].
+        apply data_val_small. unfold m in *. lia.
+    + assert (t <> Format.Fat32) as Hne by (intros ->; discriminate).
+      assert (q_total g <= 65524) as Hsm by (destruct t; cbn [max_clusters] in Hmax; try contradiction; lia).
+      rewrite cnt_all_free; [lia|]. intros x Hx. rewrite (S4 x) by lia. apply data_val_small. lia.
+  - intros Hne. unfold bad_range_clusters. destruct t; cbn [max_clusters] in Hmax; try contradiction; lia.
   - intros E32. destruct (H32 E32) as (HpF8 & Hrds0 & Htot).
-    assert (q_total g <= 268435444) as Hmax.
-    { destruct Hg as (_ & _ & _ & _ & _ & _ & _ & _ & _ & _ & Hmax & _). rewrite E32 in Hmax. exact Hmax. }
+    assert (q_total g <= 268435444) as Hmax' by (rewrite E32 in Hmax; exact Hmax).
     unfold fi_fsinfo_pos. rewrite (bf_fsinfo _ _ _ Hbf), (bf_bps _ _ _ Hbf). unfold if32. rewrite E32. cbn [fat_type_eqb].
     rewrite N.mul_1_l.
     set (B := q_bps g) in *. set (pF := q_r g * B) in *. set (pR := (q_r g + q_f g * q_spf g) * B) in *.
@@ -1305,17 +1469,15 @@ Qed.
 
 (* ================================================================== (f) totality *)
 (* format_volume performs its writes exactly when the sizing/validation step accepts the request; it never panics and
-   fails only with InvalidInput.  PARTIAL: for requests whose FAT32 table reaches the BAD range (below_bad_range fails)
-   the statement is not proved here. *)
-Theorem image_total_partial o ts im0 : builder_range o -> ts < 4294967296 -> bytes_ok im0 ->
-  (forall bs t, format_boot_sector_validated o ts = Ok (bs, t) -> below_bad_range (fbs_bpb bs) t) ->
+   fails only with InvalidInput (before the first write) *)
+Theorem image_total o ts im0 : builder_range o -> ts < 4294967296 -> bytes_ok im0 ->
   format_image o ts im0 <> Panic /\ format_image o ts im0 <> OutOfFuel /\
   (forall e, format_image o ts im0 = Err e -> e = EInvalidInput) /\
   ((exists im, format_image o ts im0 = Ok im) <-> (exists r, format_boot_sector_validated o ts = Ok r)).
 Proof.
-  intros Hb Hts Hb0 Hbad.
+  intros Hb Hts Hb0.
   destruct (format_boot_sector_validated o ts) as [[bs t]|e| |] eqn:Ev.
-  - destruct (format_image_facts o ts im0 bs t Hb Hts Hb0 Ev (Hbad bs t eq_refl)) as (im & E & _).
+  - destruct (format_image_facts o ts im0 bs t Hb Hts Hb0 Ev) as (im & E & _).
     rewrite E. split; [discriminate|]. split; [discriminate|]. split; [discriminate|].
     split; intros _; eexists; reflexivity.
   - pose proof (format_err_kind o ts e Hb Hts Ev) as ->.
@@ -1323,4 +1485,64 @@ Proof.
     split; [intros e [= <-]; reflexivity|]. split; intros [x Hx]; discriminate.
   - exfalso. exact (proj1 (format_total o ts Hb Hts) Ev).
   - exfalso. exact (proj2 (format_total o ts Hb Hts) Ev).
+Qed.
+
+(* ================================================================== FS-info count vs. the table *)
+(* The count the FS-info sector carries is the number of free entries of the table unless the volume reaches the BAD
+   range ... *)
+Corollary image_fsinfo_count_exact o ts im0 bs im : builder_range o -> ts < 4294967296 -> bytes_ok im0 ->
+  format_boot_sector_validated o ts = Ok (bs, Format.Fat32) -> format_image o ts im0 = Ok im ->
+  sp_clusters (fbs_bpb bs) + 2 <= 268435440 ->
+  img_u32 im (fi_fsinfo_pos (fbs_bpb bs) + 488) =
+    count_spec fstore val32 (fi_fat_store im (fbs_bpb bs)) 2 (N.to_nat (sp_clusters (fbs_bpb bs))).
+Proof.
+  intros Hb Hts Hb0 Hv E Hsmall.
+  destruct (image_free_space o ts im0 bs Format.Fat32 im Hb Hts Hb0 Hv E) as (C & _ & F). cbv zeta in C, F.
+  destruct (F eq_refl) as (_ & _ & W & _). rewrite W. cbn [to_fat_type sp_is32] in C.
+  change (val_ft Fat.Fat32) with val32 in C. rewrite C. unfold bad_range_clusters. lia.
+Qed.
+
+(* ... and it is NOT for the six largest cluster counts a FAT32 volume can have: format_fat marks the data clusters
+   0x0FFFFFF0 .. as Bad, the FS-info sector still counts them as free.  Witness: 270532604 sectors of 512 bytes,
+   512-byte clusters, one FAT: 268435444 clusters, 6 of them Bad, FS-info says 268435443 free, the table has 268435437. *)
+Definition bad_range_request : fmt_options :=
+  {| o_bytes_per_sector := 512; o_total_sectors := None; o_bytes_per_cluster := Some 512; o_fat_type := Some Format.Fat32;
+     o_max_root_dir_entries := 512; o_fats := 1; o_media := 248; o_sectors_per_track := 32; o_heads := 64;
+     o_drive_num := None; o_volume_id := 305419896; o_volume_label := None |}.
+
+Lemma bad_range_request_in_range : builder_range bad_range_request.
+Proof.
+  unfold builder_range; cbn [bad_range_request o_bytes_per_sector o_bytes_per_cluster o_max_root_dir_entries o_fats o_media
+    o_sectors_per_track o_heads o_drive_num o_volume_id o_volume_label].
+  repeat split; intros; try lia; try discriminate; try reflexivity;
+    match goal with H : Some _ = Some _ |- _ => injection H as <- end; try reflexivity; lia.
+Qed.
+
+Lemma image_fsinfo_count_refuted :
+  exists o ts bs, builder_range o /\ ts < 4294967296 /\ format_boot_sector_validated o ts = Ok (bs, Format.Fat32) /\
+    sp_clusters (fbs_bpb bs) = 268435444 /\
+    forall im0, bytes_ok im0 ->
+      exists im, format_image o ts im0 = Ok im /\
+        img_u32 im (fi_fsinfo_pos (fbs_bpb bs) + 488) = 268435443 /\
+        count_spec fstore val32 (fi_fat_store im (fbs_bpb bs)) 2 (N.to_nat (sp_clusters (fbs_bpb bs))) = 268435437 /\
+        (forall x, 268435440 <= x < 268435446 -> val32 (fi_fat_store im (fbs_bpb bs)) x = Bad).
+Proof.
+  exists bad_range_request, 270532604.
+  destruct (format_boot_sector_validated bad_range_request 270532604) as [[bs t]| | |] eqn:Ev;
+    [|vm_compute in Ev; discriminate..].
+  assert (t = Format.Fat32 /\ sp_clusters (fbs_bpb bs) = 268435444) as [-> Hc].
+  { vm_compute in Ev. injection Ev as <- <-. split; vm_compute; reflexivity. }
+  exists bs. split; [exact bad_range_request_in_range|]. split; [lia|]. split; [reflexivity|]. split; [exact Hc|].
+  intros im0 Hb0.
+  destruct (format_image_facts bad_range_request 270532604 im0 bs Format.Fat32 bad_range_request_in_range ltac:(lia) Hb0 Ev)
+    as (im & E & _).
+  exists im. split; [exact E|].
+  assert (270532604 < 4294967296) as Hts by lia.
+  destruct (image_free_space bad_range_request 270532604 im0 bs Format.Fat32 im bad_range_request_in_range Hts Hb0 Ev E) as (C & _ & F).
+  cbv zeta in C, F. destruct (F eq_refl) as (_ & _ & W & _).
+  destruct (image_fat bad_range_request 270532604 im0 bs Format.Fat32 im bad_range_request_in_range Hts Hb0 Ev E) as (_ & _ & D & _).
+  cbn [to_fat_type sp_is32] in C, D. change (val_ft Fat.Fat32) with val32 in C, D.
+  rewrite Hc in *. split; [rewrite W; reflexivity|]. split; [rewrite C; reflexivity|].
+  intros x Hx. rewrite (D x ltac:(lia)). destruct (N.eqb_spec x 2); [lia|]. cbn [andb].
+  unfold data_val. destruct (268435440 <=? x) eqn:Ex; [reflexivity|apply N.leb_gt in Ex; lia].
 Qed.
